@@ -269,7 +269,23 @@ pub fn run() {
       ),
     }
   }
-  let total = cases.load(Ordering::Relaxed) + zero_cases.load(Ordering::Relaxed);
+  // all results of arithmetic on the C02 operand lattice go through the same checks
+  let arith = AtomicU64::new(0);
+  crate::engines::c02::enumerate(
+    thorough,
+    &|_, _, _, _, _| {},
+    &|n, origin| {
+      let dbg = format!("{:?}", n);
+      if dbg.contains("Inf") || dbg.contains("NaN") {
+        return; // not a finite number: C02's subject
+      }
+      arith.fetch_add(1, Ordering::Relaxed);
+      if let Some((k, w)) = check_number(n, None, origin) {
+        run.violation(&format!("arithmetic-result:{}", k), &w, json!({"engine":"c07","origin":origin}));
+      }
+    },
+  );
+  let total = cases.load(Ordering::Relaxed) + zero_cases.load(Ordering::Relaxed) + arith.load(Ordering::Relaxed);
   run.sample(json!({"sci":"-99E-6176","expected_plain":"-0.000…099 (6176 fraction digits)"}));
   run.sample(json!({"sci":"1234567E6111","checks":["display is plain decimal","display denotes coefficient x 10^exponent","from_str(display) == value","jsonify is a JSON number with the same value","xsd decimal/double/integer input","FEEL literal"]}));
   run.set("states", json!(total));
@@ -284,6 +300,7 @@ pub fn run() {
   run.set("literal_cases", json!(literal_cases.load(Ordering::Relaxed)));
   run.set("xsd_input_cases", json!(xsd_cases.load(Ordering::Relaxed)));
   run.set("zero_cases", json!(zero_cases.load(Ordering::Relaxed)));
+  run.set("arithmetic_results_checked", json!(arith.load(Ordering::Relaxed)));
   run.assume("exactness is decided by digit-string arithmetic on (sign, integer digits, fraction digits); no floating point or big-number library is involved");
   run.assume("results of arithmetic are pushed through the same checks by the C02 engine");
   run.finish();
